@@ -8,6 +8,7 @@ import re
 import tempfile
 
 from . import c14_driver as D
+from . import c14_scripted as SC
 from . import common
 from .common import coq_bool, coq_list, coq_str
 
@@ -91,6 +92,8 @@ def generate(ctx):
     ctx.facts = facts
     ctx.stats["isdir_emits_self"] = facts["isdir_emits_self"]
     ctx.stats["commit_attached_only"] = facts["commit_attached_only"]
+    ctx.stats["commit_program"] = facts["commit_program"]
+    ctx.stats["during_build_flags"] = {"drain": facts["drain_during_build"], "loop": facts["loop_during_build"]}
     ctx.stats["hash_transitions"] = facts["transitions"]
 
 
@@ -285,7 +288,7 @@ async def _one_history(spec, ops, queued_during_build=0):
                         pre_dirs = sorted(p.rstrip("/") for p, c in snap0.items() if c is None)
                         pre_empty = op[0] == "rmtree" and os.path.isdir(op[1]) and not os.listdir(op[1])
                         w0 = D.watches_dump(w)
-                        if not D.apply_op(op):
+                        if not (await D.vanish(st, op[1]) if op[0] == "vanish" else D.apply_op(op)):
                             continue
                         items = await D.drain_real(w)
                         raw = [(m, p) for m, p in w.inotify.log[n0:] if D.SENTINEL not in p]
@@ -392,8 +395,12 @@ def _classify(res):
                 gone_under = any(k == "DELETED_PARENT" and p.startswith(d.rstrip("/") + "/") and
                                  any(k2 == "UPDATED" and p2 == p for k2, p2 in items[:i])
                                  for i, (k, d) in enumerate(items))
+                unchanged_deleted = (["UNCHANGED", p] in [list(c) for c in res.get("watch_reports", [])]
+                                     and any(k == "DELETED" and q == p for k, q in items))
                 if p in sa and p not in sb and gone_under:
                     sigs.add(SIG_STALE)
+                elif p in sa and p not in sb and unchanged_deleted:
+                    sigs.add("watch-vs-restart:nglob:deleted-match-kept:unchanged-rehash-of-deleted-path")
                 elif p.endswith("/"):
                     sigs.add(SIG_D10)
                 elif p in sb and (os.path.dirname(p) or ".") not in watch_keys:
@@ -466,13 +473,13 @@ def _batch_checks(batch, facts):
 
     def parent_watched(p):
         return batch["w0"].get(os.path.dirname(p) or ".", False)
-    if op[0] in ("write", "rm") or (op[0] == "mv" and op[1] in pre):
+    if op[0] in ("write", "rm", "vanish") or (op[0] == "mv" and op[1] in pre):
         paths = [op[1]] + ([op[2]] if op[0] == "mv" else [])
         if op[0] == "mv" and op[2] in pre:
             return checks      # rename onto an existing file: not a row of the kernel table
         watched = coq_list([coq_str(p) for p in paths if parent_watched(p)])
         exist = coq_list([coq_str(p) for p in paths if p in pre])
-        cop = {"write": f"FWrite {coq_str(op[1])} 0", "rm": f"FRemove {coq_str(op[1])}",
+        cop = {"write": f"FWrite {coq_str(op[1])} 0", "rm": f"FRemove {coq_str(op[1])}", "vanish": f"FRemove {coq_str(op[1])}",
                "mv": f"FMove {coq_str(op[1])} {coq_str(op[2]) if op[0] == 'mv' else ''}"}[op[0]]
         raw = [(m, p) for m, p in batch["raw"] if not (m & 32768)]
         checks.append(("kernel_rows", f"mseteq (map ekey (kernel_events (fun p => pmem p {watched}) "
@@ -513,7 +520,12 @@ def _commit_checks(res):
     htab = coq_list([f"({coq_str(p)}, {ids.setdefault(tuple(v), len(ids) + 1)})" for p, v in sorted(res["final_hashes"].items())])
     # ids must be final before printing g: re-render
     g = f"@mk_g unit {files_of(pre)} {rows_of(pre)} tt"
-    items = coq_list([_coq_item(k, p, i < res["nqb"]) for i, (k, p) in enumerate(res["items"])])
+    # items queued before run_once started are recorded by its drain loop, the others by its watch loop:
+    # the during_build flag of each is the one the translator read from the code
+    def _it(k, pth, queued):
+        c = {"UPDATED": "Updated", "DELETED": "Deleted", "DELETED_PARENT": "DeletedParent"}[k]
+        return f"mk_item {c} {coq_str(pth)} {'drain_during_build' if queued else 'loop_during_build'}"
+    items = coq_list([_it(k, p, i < res["nqb"]) for i, (k, p) in enumerate(res["items"])])
     uni = coq_list([coq_str(p) for p in universe])
     ex = coq_list([coq_str(p) for p in exist])
     common_let = (f"let g := {g} in let T := tab {tab} in let H := assoc {htab} in "
@@ -856,7 +868,86 @@ def _watchset_cases(ctx, nrandom):
     return checks, descr
 
 
+def _run_scripted(ctx, extra=()):
+    """Histories on the in-process Watcher with scripted queue items (harness/c14_scripted.py): no inotify
+    instance, no generated Coq file: runs whatever else broke."""
+    seen = set()
+    for name, (spec, phases) in list(SC.SCRIPTED.items()) + list(extra):
+        try:
+            res = D.run(SC.scripted_history(spec, phases), timeout=120)
+        except Exception as e:  # noqa: BLE001
+            sig = f"scripted-history:exception:{type(e).__name__}"
+            if sig not in seen:
+                seen.add(sig)
+                ctx.add_failure("oracle", f"rebuild-vs-restart:{name}", sig, f"{name}: {type(e).__name__}: {e}",
+                                witness={"case": name, "scripted": True, "project": spec, "phases": phases})
+            continue
+        reports = [r for ph in res["phases"] for r in ph["reports"]]
+        ctx.case(("scripted", name), nontrivial=any(t in ("UPDATED", "DELETED") for t, _p in reports))
+        ctx.count("scripted_histories")
+        if any(t == "UNCHANGED" and [("DELETED", p2) for t2, p2 in reports if t2 == "DELETED" and p2 == p]
+               for t, p in reports):
+            ctx.count("scripted_unchanged_rehash_of_deleted_path")
+        if name in ("vanished-match-during-build", "deleted-while-hash-job-runs"):
+            ctx.sample({"scripted": name, "phases": phases, "reports": reports, "diff": res["diff"]})
+        if not res["diff"]:
+            continue
+        ctx.count("scripted_histories_disagreeing")
+        sig = SC.classify_scripted(res)
+        if sig in seen:
+            continue
+        seen.add(sig)
+        ctx.add_failure("oracle", f"rebuild-vs-restart:{name}", sig,
+                        f"{name}: project {spec!r}; phases (ops = while the build ran, queued = items on the queue when "
+                        f"run_once starts, watch_ops/items = while watching, late_ops = translated after end_watching) "
+                        f"{phases!r}: the watch-phase commit of the last phase and a restart on a copy of the same database "
+                        f"and tree disagree: {res['diff']!r}; watcher reported {reports!r}; watch error {res.get('error')!r}",
+                        witness={"case": name, "scripted": True, "project": spec, "phases": phases, "diff": res["diff"]})
+
+
+def _model_sweep(ctx):
+    """Search for a counterexample of C14_watch_commit_equals_rescan for the GENERATED commit_program on an
+    exhaustive one-path family; every counterexample is a genuine one (wf_b / covers_b are sound) and is
+    replayed on the real Watcher where the instance is reachable through the Workflow API."""
+    insts = SC.sweep_instances()
+    terms = [SC.sweep_term(i, False) for i in insts] + [SC.sweep_term(i, True) for i in insts]
+    bad = common.run_cases(ctx, "sweep", HEADER + SC.SWEEP_HEADER, terms, chunk=400)
+    n = len(insts)
+    vacuous = {i - n for i in bad if i >= n}
+    for k, inst in enumerate(insts):
+        ctx.case(("sweep", repr(inst)), nontrivial=k not in vacuous)
+    ctx.stats["sweep_instances"] = n
+    ctx.stats["sweep_instances_satisfying_hypotheses"] = n - len(vacuous)
+    cex = [insts[i] for i in bad if i < n]
+    ctx.traces_validated += n - len(cex)
+    ctx.stats["sweep_counterexamples"] = len(cex)
+    if not cex:
+        return
+    real = []
+    for inst in cex:
+        m = SC.real_spec_of_instance(inst)
+        if m is not None:
+            real.append((f"model-counterexample-{len(real)}", m))
+    prog = "; ".join(ctx.stats.get("commit_program") or ["?"])
+    ctx.add_failure("correspondence", "commit-program-sweep", f"commit-program:model-counterexample:[{prog}]",
+                    f"the commit program translated from Watcher.run_once [{prog}] differs from startup_rescan on "
+                    f"{len(cex)} well-formed, covered instance(s) of the one-path family, e.g. {cex[0]!r} "
+                    "(node state / attached / recorded hash / path recorded as match / hash on disk / in which set)",
+                    witness={"case": "commit-program-sweep", "sweep": True, "instances": cex[:6]})
+    _run_scripted_only(ctx, real[:4])
+
+
+def _run_scripted_only(ctx, cases):
+    saved = dict(SC.SCRIPTED)
+    try:
+        SC.SCRIPTED.clear()
+        _run_scripted(ctx, cases)
+    finally:
+        SC.SCRIPTED.update(saved)
+
+
 def correspondence(ctx):
+    _model_sweep(ctx)
     ws_checks, ws_descr = _watchset_cases(ctx, ctx.scale(12, 150))
     bad = common.run_cases(ctx, "watchset", HEADER + "From SV Require Import model.WatchSet.\n", ws_checks, chunk=100)
     ctx.traces_validated += len(ws_checks) - len(bad)
@@ -876,6 +967,7 @@ def correspondence(ctx):
 
 
 def oracle(ctx):
+    _run_scripted(ctx)
     _run_phased(ctx)
     checks, descr = _run_histories(ctx, ctx.scale(40, 400))
     if ctx.stats.get("histories_skipped_no_inotify_instance"):
@@ -953,7 +1045,15 @@ def search(ctx):
 def replay(ctx, obj):
     w = obj["failure"].get("witness") or {}
     print("replaying", w.get("case"), w.get("ops"))
-    if w.get("phased"):
+    if w.get("scripted"):
+        res = D.run(SC.scripted_history(w["project"], w["phases"]), timeout=120)
+        print("diff:", res["diff"], "error:", res.get("error"))
+        if res["diff"]:
+            ctx.add_failure("oracle", f"rebuild-vs-restart:{w.get('case')}", obj["failure"]["signature"],
+                            f"replayed: {res['diff']!r}", witness=w)
+    elif w.get("sweep"):
+        _model_sweep(ctx)
+    elif w.get("phased"):
         res = D.run(_phased_history(w["project"], w["phases"]), timeout=120)
         print("diff:", res["diff"])
         if res["diff"]:
